@@ -620,7 +620,7 @@ theorem depositQsr_law {d d' : Deposits} {c : Ctx} (h : depositQsr d c = some d'
       simp at this ⊢; omega
 
 theorem withdrawQsr_law {d d' : Deposits} {c : Ctx} {ps : List Payout} (h : withdrawQsr d c = some (d', ps)) :
-    c.amount = 0 ∧ 0 < depositOf d c.sender ∧ ps = [⟨c.sender, qsrTok, depositOf d c.sender, false⟩] ∧
+    c.amount = 0 ∧ 0 < depositOf d c.sender ∧ ps = [⟨c.sender, qsrTok, depositOf d c.sender, .none⟩] ∧
       d' = erase c.sender d ∧ depositsTotal d' + depositOf d c.sender ≤ depositsTotal d := by
   unfold withdrawQsr at h
   split at h
@@ -694,7 +694,7 @@ theorem registerPillar_spec {P : Params} {name : Hash} {producer reward : Addr} 
     ∃ d', consumeQsr s.deposits c.sender (pillarQsrCost P s) = some d' ∧
       s' = { s with pillars := put name ⟨c.sender, P.pillarStakeAmount, c.now, 0, producer, reward, ZV.Gen.NormalPillarType, pb, pd⟩ s.pillars,
                     producing := put producer name s.producing, deposits := d' } ∧
-      ps = [⟨tokenContract, qsrTok, pillarQsrCost P s, true⟩] := by
+      ps = [⟨tokenContract, qsrTok, pillarQsrCost P s, .burn⟩] := by
   unfold registerPillar at h
   split at h
   · cases h
@@ -723,7 +723,7 @@ theorem revokePillar_spec {P : Params} {name : Hash} {ok : Bool} {s s' : Pillar}
     c.amount = 0 ∧ ∃ p, lookup name s.pillars = some p ∧ p.revokeTime = 0 ∧ p.stakeAddr = c.sender ∧
       revocable P.pillarLock P.pillarRevoke p.regTime c.now = true ∧
       s' = { s with pillars := put name { p with revokeTime := c.now, amount := 0 } s.pillars } ∧
-      ps = [⟨p.stakeAddr, znnTok, P.pillarStakeAmount, false⟩] := by
+      ps = [⟨p.stakeAddr, znnTok, P.pillarStakeAmount, .none⟩] := by
   unfold revokePillar at h
   split at h
   · cases h
@@ -911,7 +911,7 @@ theorem revokeSentinel_spec {P : Params} {s s' : Sentinel} {c : Ctx} {ps : List 
     c.amount = 0 ∧ ∃ e, lookup c.sender s.entries = some e ∧ e.revokeTime = 0 ∧
       revocable P.sentinelLock P.sentinelRevoke e.regTime c.now = true ∧
       s' = { s with entries := put c.sender { e with revokeTime := c.now, znn := 0, qsr := 0 } s.entries } ∧
-      ps = [⟨c.sender, znnTok, e.znn, false⟩, ⟨c.sender, qsrTok, e.qsr, false⟩] := by
+      ps = [⟨c.sender, znnTok, e.znn, .none⟩, ⟨c.sender, qsrTok, e.qsr, .none⟩] := by
   unfold revokeSentinel at h
   split at h
   · cases h
